@@ -171,9 +171,14 @@ static void run(const Scenario &sc, Reporter &rep) {
         if (!rep.check(k, project(w))) bad = true;
     }
     // finish: let time pass whenever everything is blocked on a deadline
+    // The client always goes first: ~stop_callback in the worker really blocks (a libstdc++ semaphore, not a
+    // virtual primitive) while the stop callback runs on the client thread, so the worker must not be stepped into it
+    // while the client is inside the callback (the specification has the same guard on WExit).
     bool drained = false;
-    for (int guard = 0; guard < 50; guard++) {
-        if (w.sched.drain()) { drained = true; break; }
+    for (int guard = 0; guard < 100000; guard++) {
+        if (w.sched.all_done()) { drained = true; break; }
+        if (w.sched.enabled(0)) { w.sched.step(0); continue; }
+        if (w.sched.nthreads() > 1 && w.sched.enabled(1)) { w.sched.step(1); continue; }
         long long d = w.sched.earliest_deadline();
         if (d < 0 || d <= w.sched.vnow_ns) break;
         w.sched.vnow_ns = d;
